@@ -8,7 +8,13 @@ pub struct Time { _p: u8 }
 // ASSUMED clock arithmetic (PROVED on the real Time by Kani, harness time_due_bucket_implies_expired): a deadline whose
 // storage bucket (deadline second + 1) is not after the current second has passed.
 pub broadcast axiom fn axiom_due_implies_expired(t: Time)
-    ensures !t.zero() && t.deadline_secs() + 1 <= clock_secs() ==> #[trigger] t.expired();
+    ensures !t.zero() && bucket_of(t) <= clock_secs() ==> #[trigger] t.expired();
+
+/// the expiry bucket of a deadline: the second after the deadline second, saturating at i64::MAX (a bucket that never comes
+/// due) for deadlines at or beyond i64::MAX seconds — any Duration is a legal TTL, Duration::MAX included
+pub open spec fn bucket_of(t: Time) -> i64 {
+    if t.deadline_secs() >= i64::MAX as u64 { i64::MAX } else { (t.deadline_secs() + 1) as i64 }
+}
 
 /// the whole second of the clock reading of the call under verification
 pub uninterp spec fn clock_secs() -> u64;
